@@ -144,6 +144,12 @@ pub fn catalogue() -> Vec<Config> {
         Config { engine: Engine::Auto(None), id: 25, name: "notoserif-shaping auto@19", font: font_test_data::NOTOSERIF_AUTOHINT_SHAPING.to_vec(), size: 19.0, coords: vec![], target: Target::default() },
     ];
     v.truncate(25);
+    v.extend([
+        // a variable font with composite glyphs away from the default location (component deltas use scratch memory)
+        ci(26, "vazirmatn@13 wght 0.6", font_test_data::VAZIRMATN_VAR, 13.0, &[0.6], Target::Mono),
+        c(27, "vazirmatn@17 wght -0.8 fallback", font_test_data::VAZIRMATN_VAR.to_vec(), 17.0, &[-0.8], smooth()),
+    ]);
+    v.sort_by_key(|c| c.id);
     v
 }
 
@@ -311,6 +317,7 @@ fn run_variants(cfg: &Config, ev: &mut Vec<Value>, rep: &mut Report) {
     // (a) caller memory of exactly the advertised size at every misalignment
     let mut same = true;
     let mut wf = true;
+    let mut ubuf: Vec<u8> = vec![0xA5; 64];
     for gid in &gids {
         let Some(g) = outlines.get(GlyphId::new(*gid)) else { continue };
         let need = g.draw_memory_size(skrifa::outline::Hinting::Embedded);
@@ -332,8 +339,12 @@ fn run_variants(cfg: &Config, ev: &mut Vec<Value>, rep: &mut Report) {
         let mut r0 = Rec::new();
         let mut r1 = Rec::new();
         let a = guarded(|| g.draw(DrawSettings::unhinted(Size::new(cfg.size), &loc), &mut r0).map(|m| (m.advance_width, m.lsb)).map_err(|e| e.to_string()));
-        let mut buf = vec![0u8; need_u + 8];
-        let b = guarded(|| g.draw(DrawSettings::unhinted(Size::new(cfg.size), &loc).with_memory(Some(&mut buf[1..need_u + 1])), &mut r1).map(|m| (m.advance_width, m.lsb)).map_err(|e| e.to_string()));
+        // one buffer for all glyphs of the configuration, never cleared: first filled with a pattern, then holding
+        // whatever the previous glyph left behind
+        if ubuf.len() < need_u + 8 {
+            ubuf.resize(need_u + 8, 0xA5);
+        }
+        let b = guarded(|| g.draw(DrawSettings::unhinted(Size::new(cfg.size), &loc).with_memory(Some(&mut ubuf[1..need_u + 1])), &mut r1).map(|m| (m.advance_width, m.lsb)).map_err(|e| e.to_string()));
         if a != b || r0.cmds != r1.cmds {
             same = false;
             rep.violation(&format!("{}: unhinted glyph {gid} with caller memory differs", cfg.name), json!({"kind": "hint-variant", "cfg": cfg.id}));
@@ -382,6 +393,30 @@ fn run_variants(cfg: &Config, ev: &mut Vec<Value>, rep: &mut Report) {
         }
         hs.into_iter().all(|h| h.join().unwrap_or(false))
     });
+    // ... and through instances nobody has drawn with yet: whatever the instance computes lazily on first use is then
+    // computed while other threads are already asking for it (all threads start together, on the same glyph)
+    let mut same = same;
+    for round in 0..6usize {
+        let Ok(fresh) = HintingInstance::new(&outlines, Size::new(cfg.size), &loc, options(cfg)) else { break };
+        let barrier = std::sync::Barrier::new(8);
+        let ok = std::thread::scope(|s| {
+            let mut hs = vec![];
+            for _t in 0..8usize {
+                let (fresh, font, gids, expect, barrier) = (&fresh, &font, &gids, &expect, &barrier);
+                hs.push(s.spawn(move || {
+                    barrier.wait();
+                    let mut ok = true;
+                    for k in 0..gids.len().min(60) {
+                        let k2 = (k + round * 11) % gids.len();
+                        ok &= draw_one(font, gids[k2], fresh, false, None) == expect[k2];
+                    }
+                    ok
+                }));
+            }
+            hs.into_iter().all(|h| h.join().unwrap_or(false))
+        });
+        same &= ok;
+    }
     if !same {
         rep.violation(&format!("{}: concurrent draws through a shared hinting instance differ from sequential draws", cfg.name), json!({"kind": "hint-variant", "cfg": cfg.id}));
     }
